@@ -2,7 +2,7 @@
 
 BINARIES = {
     # plain: everything that needs neither the race detector nor the vfs tag
-    "props": {"pkg": "./props", "tags": "verif"},
+    "props": {"pkg": "./props", "tags": "verif", "extra": [{"pkg": "./cmd/lsdriver", "out": "lsdriver"}]},
 }
 
 MANIFEST_META = {
@@ -239,5 +239,26 @@ PROPS = {
         "runs": [
             {"name": "histories", "test": "TestProp_C05", "kind": "rapid", "checks_quick": 400, "checks_thorough": 15000, "shards": 6},
         ],
+    },
+    "C10": {
+        "manifest": {
+            "text": "replicas produced by generated histories; every restore runs in a child process; damages: truncate at an offset, flip a bit, delete a file (inside and outside the restore plan), read-fault schedules up to and beyond the retry budget, pre-existing output / temp file, integrity-check modes against a source with a scribbled b-tree page; outcome must be an error or byte-identical output, never a partial file, a leftover temp file, an overwritten output or a process death. Thorough enumerates every truncation offset and a bit flip at every byte of every plan file of fixed replicas",
+            "note": "deleting the tail file of the chain legitimately yields the previous state (accepted); each injected read retry costs the code's own back-off so read-fault schedules are sampled",
+            "technique": "property-based testing (rapid) with fault injection and a byte-equality oracle; exhaustive single-corruption enumeration per replica (fault enumeration)",
+        },
+        "binary": "props",
+        "level": "fault_enumeration",
+        "rule": ("per case: a replica from a 3-12 step history (page size 512/1024/4096, 1-2 levels, compaction, snapshots) and 6-24 damages drawn from {truncate at "
+                 "offset, flip bit at offset, delete file} on plan / non-plan files, {read error, premature EOF, open failure} x 1-2 or 5 faults per restore, "
+                 "{output exists, output.tmp exists}, {integrity None/Quick/Full x scribbled source}. Thorough: fixed replicas x every plan file x every byte "
+                 "offset x {truncate, flip}. Non-trivial = the damage hits a file of the restore plan, a read fault forces a resume, or an output-path/"
+                 "integrity scenario; distinct = hash of (history, damages)."),
+        "assumptions": ["file replica client", "single corruptions (one damage per restore)"],
+        "runs": [
+            {"name": "damages", "test": "TestProp_C10", "kind": "rapid", "checks_quick": 240, "checks_thorough": 6000, "shards": 6},
+            {"name": "enumerate-offsets", "test": "TestEnum_C10", "kind": "plain", "shards_quick": 6, "shards_thorough": 8,
+             "env": {"VERIF_ENUM": "1"}, "env_quick": {"VERIF_ENUM_REPLICAS": "1", "VERIF_ENUM_STRIDE": "7"}, "env_thorough": {"VERIF_ENUM_REPLICAS": "6", "VERIF_ENUM_STRIDE": "1"}},
+        ],
+        "exhaustive_thorough": False,
     },
 }
